@@ -48,3 +48,17 @@ Definition run_chunk (c : bool * option nat * bool * nat * Q * Q * list (bool * 
   let fr := map (fun p => mklinst (fst p) (snd p)) raw in
   ((bottomup_chunk uo maxi eff s fr, single_chunk uo eff s fr),
    (centroid_chunk fixed anchor uo maxi eff s fr, centered_chunk fixed anchor uo maxi eff fr)).
+
+(* ---- the domain of the chunk functions (review finding 2) ----
+   The code raises outside it: `np.stack([])` in process_lf when the frame has no non-empty considered
+   instance (ValueError), `points[..., anchor_ind, :]` when the anchor is not a node (IndexError).  The
+   definitions above are total (zero-node padding rows / bbox midpoint there); the theorems about them
+   carry `lf_domain` / `chunk_anchor_domain` as hypotheses, and `run_chunk_dom` hands both to the harness,
+   which checks that the code raises exactly where they are false. *)
+Definition chunk_anchor_domain (anchor : option nat) (uo : bool) (fr : lframe) : bool :=
+  forallb (fun inst => anchor_domain anchor (length inst)) (considered uo fr).
+
+Definition run_chunk_dom (c : bool * option nat * bool * nat * Q * Q * list (bool * instance)) :=
+  let '(fixed, anchor, uo, maxi, eff, s, raw) := c in
+  let fr := map (fun p => mklinst (fst p) (snd p)) raw in
+  ((lf_domain uo fr, chunk_anchor_domain anchor uo fr), run_chunk c).
